@@ -23,7 +23,7 @@ def run(prop, tier):
     p = 2 if tier == "quick" else 3
     sjobs = [dict(src="harness/sched_ipc.c", ipc=True, args=["shmbuf", "-p", p if len(sc) < 3 else 2, "--"] + list(sc)) for sc in scripts]
     sacc = mcsched.run_jobs(prop, tier, sjobs)
-    acc.viols += sacc.viols; acc.jobs += sacc.jobs; acc.samples += sacc.samples[:3]; acc.incomplete += sacc.incomplete
+    acc.viols += sacc.viols; acc.jobs += sacc.jobs; acc.samples += sacc.samples[:3]; acc.incomplete += sacc.incomplete; acc.engine_errors += sacc.engine_errors
     for k, v in sacc.stats.items():
         acc.add_stat("sched_" + k, v)
     s = acc.stats
